@@ -222,6 +222,19 @@ func runC10(w *mc.Worker) {
 							break
 						}
 					}
+					// every balance that influences the result was requested <=> with a store that answers
+					// exactly what is asked, the result is the one the reference semantics computes
+					// from the true balances (a balance that was never asked for reads as 0)
+					if model.Err != ref.EUnspecified && outs[env.Exact].Panic == "" {
+						fs := judge(prog, inp, outs[env.Exact], model)
+						for _, f := range fs {
+							if strings.HasPrefix(f.Clause, "C12.") {
+								continue
+							}
+							w.Violation("C10.exact-store-result:"+strings.SplitN(f.Clause, ".", 2)[1]+":"+feat, "under the store that answers exactly what is asked the result differs from the one the true balances give ("+f.Msg+")", len(text)+len(balStr(bal)), mk())
+							break
+						}
+					}
 					// monitors on the exact store's log
 					asked := map[[2]string]bool{}
 					for _, q := range exact.Log {
@@ -237,7 +250,7 @@ func runC10(w *mc.Worker) {
 							}
 						}
 					}
-					if model.Err == "" && outs[0].Err == nil {
+					if model.Err == "" {
 						var missing []string
 						for r := range reads {
 							if r[0] != "world" && !asked[r] {
